@@ -367,6 +367,13 @@ func diffPath(want, got *Tree, m Mode, path []string) *Difference {
 			(got.Kind == KNil && want.Kind == KList && len(listElems(want, m)) == 0) {
 			return nil
 		}
+		// "func f() ()" is printed as "func f()": an empty result list and
+		// no result list are the same output.
+		if m == Output && len(path) > 0 && path[len(path)-1] == "FuncType.Results" {
+			if (want.Kind == KNil && emptyFieldList(got)) || (got.Kind == KNil && emptyFieldList(want)) {
+				return nil
+			}
+		}
 		return mk("different kind of node")
 	}
 	switch want.Kind {
@@ -416,6 +423,14 @@ func diffPath(want, got *Tree, m Mode, path []string) *Difference {
 		return nil
 	}
 	return mk("unknown kind")
+}
+
+func emptyFieldList(t *Tree) bool {
+	if t == nil || t.Kind != KNode || t.TypeName() != "FieldList" {
+		return false
+	}
+	l := t.Field("List")
+	return l == nil || l.Kind == KNil || (l.Kind == KList && len(l.Kids) == 0)
 }
 
 // hasListAlt reports whether a list contains a KAlt whose alternatives are
